@@ -28,21 +28,35 @@ def run(ctx):
     site = ht.site(ref.node)
     general = [r for r in rets if not (r.term[0] == "list" and r.term[1] == (("param", "hostname"),))]
     ctx.require_instances("R1", len(general), 1, "non-special return of tokenize_hostname")
+    from ..microeval import run_function, Raised
+
+    def tok_cells():
+        # the tokenizer interpreted on one host per obligation (consulted only when a shape test below fails)
+        out = []
+        for h, want in (("a.b.org", ["org", "b", "a"]), ("Example.COM", ["com", "example"]), (" example.com ", ["com", "example"]), ("xn--tlrama-bvab.fr", ["fr", "t\u00e9l\u00e9rama"]),
+                        ("www.xn--tlrama-bvab.fr", ["fr", "t\u00e9l\u00e9rama", "www"]), ("WWW.XN--TLRAMA-BVAB.FR", ["fr", "t\u00e9l\u00e9rama", "www"]), ("xn--caf-dma.xn--p1ai", ["\u0440\u0444", "caf\u00e9"]),
+                        ("t\u00e9l\u00e9rama.fr", ["fr", "t\u00e9l\u00e9rama"]), ("ORG", ["org"])):
+            try:
+                got = list(run_function(repo, ref, [h]))
+            except Raised as e:
+                got = "raises " + e.name
+            out.append(("tokenize_hostname(%r) -> %r" % (h, got), got == want))
+        return out
     for r in general:
         t = r.term
         leaf = F.is_param("hostname")
-        ctx.ob("R1", "tokenize_hostname/reversed", t[0] == "call" and t[1] == "builtins.reversed", "tokenize_hostname does not return the labels reversed (right-to-left)", site, witness="a.b.org")
+        ctx.ob("R1", "tokenize_hostname/reversed", t[0] == "call" and t[1] == "builtins.reversed", "tokenize_hostname does not return the labels reversed (right-to-left)", site, witness="a.b.org", cells=tok_cells)
         for role, pred, w in (("lower", lambda x: x[0] == "method" and x[1] in ("lower", "casefold"), "Example.COM"), ("strip", lambda x: x[0] == "method" and x[1] == "strip", " example.com "),
                               ("idna", F.is_call("ural.utils.decode_punycode_hostname"), "xn--tlrama-bvab.fr")):
-            ctx.ob("R1", "tokenize_hostname/" + role, not F.unguarded_paths(t, leaf, pred), "tokenize_hostname does not apply %s on every path: added and queried hosts are compared with different spellings" % role, site, witness=w)
+            ctx.ob("R1", "tokenize_hostname/" + role, not F.unguarded_paths(t, leaf, pred), "tokenize_hostname does not apply %s on every path: added and queried hosts are compared with different spellings" % role, site, witness=w, cells=tok_cells)
         dec = F.find_nodes(t, F.is_call("ural.utils.decode_punycode_hostname"))
         for d in dec:
             kw = dict(d[3])
-            ctx.ob("R1", "tokenize_hostname/idna-per-label", kw.get("as_parts") == ("const", True) or (len(d[2]) > 1 and d[2][1] == ("const", True)), "tokenize_hostname does not ask for per-label decoding (as_parts=True)", site)
+            ctx.ob("R1", "tokenize_hostname/idna-per-label", kw.get("as_parts") == ("const", True) or (len(d[2]) > 1 and d[2][1] == ("const", True)), "tokenize_hostname does not ask for per-label decoding (as_parts=True)", site, cells=tok_cells)
     # no shortcut return that skips the per-label decoding (e.g. `if not hostname.startswith("xn--")`)
     shortcuts = [r for r in rets if not (r.term[0] == "list" and r.term[1] == (("param", "hostname"),)) and not F.find_nodes(r.term, F.is_call("ural.utils.decode_punycode_hostname"))]
     ctx.ob("R1", "tokenize_hostname/every-path-decodes-punycode", not shortcuts,
-           "tokenize_hostname has a return path that skips punycode decoding: 'www.xn--tlrama-bvab.fr' and 'www.télérama.fr' are different keys", site, witness="www.xn--tlrama-bvab.fr")
+           "tokenize_hostname has a return path that skips punycode decoding: 'www.xn--tlrama-bvab.fr' and 'www.télérama.fr' are different keys", site, witness="www.xn--tlrama-bvab.fr", cells=tok_cells)
     # decode_punycode_hostname: splits on '.', decodes labels whose lower-cased 4-prefix is 'xn--'
     ut = repo.mod("utils")
     dref = ut.func("decode_punycode_hostname")
